@@ -18,7 +18,7 @@ var profile = gen.Profile{
 	AllowPush: true, PHandlerPush: 25, // on push-enabled servers a quarter of the parking handlers first wait for a callback
 	MinSteps: 4, MaxSteps: 26, Limits: []int{32},
 	PNote: 55, PGate: 75, PInvalid: 6, PUnknown: 6, PBatch: 40, MaxBatch: 4,
-	PCancel: 5, PBurst: 40, PObey: 30, Builtins: true, Pins: true,
+	PCancel: 5, PBurst: 40, PObey: 30, Builtins: true, Pins: true, PLongWait: 3,
 	Outcomes:      []string{"ok", "ok", "err:-32000", "ctxerr"},
 	Chans:         []string{"direct", "pipe"},
 	PBaseDeadline: 0,
@@ -100,6 +100,28 @@ func init() {
 		Rule: "as scenarios, but with Concurrency 1-4 and handlers (of notifications too) that fail, return unmarshalable values or are cancelled before a call stays parked and further requests arrive: below the limit a request of a started record must begin although earlier calls are still running; non-trivial = a notification was parked at a moment when a later record had already been received; distinct = hash of the scenario"})
 	parts = append(parts, engine.Part[sim.Scenario]{Name: "highlimit", Run: runHigh, Gen: genHigh,
 		Rule: "as scenarios, with Concurrency 17-33 (above the CPU count of the machine): the script opens with 14 to limit-1 single parking calls, then 3-12 ordinary steps follow: with fewer handlers running than the limit a later request must begin although that many earlier calls are still running; non-trivial = at least 16 handlers were parked at one quiescent point; distinct = hash of the scenario"})
+}
+
+// cancelrace: "(up to the concurrency limit)" - the limit must still be the
+// configured one after calls were cancelled right in front of or right behind
+// the slot semaphore.
+func genCancelRace(t *rapid.T) sim.Scenario { return gen.CancelRaceScenario(t) }
+
+func runCancelRace(t *testing.T, sc sim.Scenario) engine.Verdict {
+	h := sim.Run(t, sc)
+	if h.BubbleErr != "" {
+		return engine.Verdict{Labels: []string{"other-clause:bubble-error"}} // judged by C08
+	}
+	n, lim, ok := oracle.SlotsUsableAtEnd(sc, h)
+	if ok && n != lim {
+		return engine.Failf("C03/later-request-waits-below-limit", "after every handler had been released, %d parking calls arrived one per message; only %d of them have begun at the next quiescent point although the limit is %d and nothing but these still-running calls precedes them\nscript:\n%s\nhistory:\n%s", lim, n, lim, oracle.ScriptText(sc), oracle.HistoryText(h))
+	}
+	return engine.Verdict{NonTrivial: ok, Labels: []string{"held-at:" + sc.Cfg.Pins[0].Site}}
+}
+
+func init() {
+	parts = append(parts, engine.Part[sim.Scenario]{Name: "cancelrace", Run: runCancelRace, Gen: genCancelRace,
+		Rule: "the cancel-race scripts of C06 (Concurrency 1-3, slots taken, further calls held by a pin right in front of or right behind the slot semaphore while CancelRequest names them and slots are given back), then everything is released and as many parking calls as the limit arrive one per message: all of them have begun at the next quiescent point; non-trivial = the tail was reached; distinct = hash of the scenario"})
 }
 
 func TestProp(t *testing.T)   { engine.RunParts(t, "C03", parts) }
